@@ -76,7 +76,8 @@ def run(module, cfg, scratch, workers=16, extra=(), env=None, timeout=3600, tag=
     res["ok"] = "Model checking completed. No error has been found." in out or \
                 ("Finished in" in out and "Error:" not in out and res["violated"] is None)
     if res["violated"] is None and not res["ok"]:
-        raise MachineryError(f"TLC failed ({module}, {cfg}):\n" + out[-3000:])
+        k = out.find("Error:")
+        raise MachineryError(f"TLC failed ({module}, {cfg}):\n" + (out[max(0, k - 200):k + 2500] if k >= 0 else out[-3000:]))
     return res
 
 
